@@ -175,6 +175,9 @@ def r2_innermost_wins(ctx, rep, only_use: bool = False):
                    f"ford/sourceform.py:{int(later[0][0]) if later else int(ev[0][0])}")
 
 
+PROJECT_NAME_TABLES = {"common"}     # dicts on the project object that are keyed by a Fortran name
+
+
 def r3_lower_keys(ctx, rep):
     py = ctx.py
     n = 0
@@ -198,6 +201,14 @@ def r3_lower_keys(ctx, rep):
                 if isinstance(s, ast.Compare) and len(s.ops) == 1 and isinstance(s.ops[0], (ast.In, ast.NotIn)) and \
                         isinstance(s.comparators[0], ast.Attribute) and s.comparators[0].attr in TABLES:
                     key, where = s.left, "in"
+                # project-wide name tables (`project.common`: common-block name -> the blocks of that name in all units)
+                if isinstance(s, ast.Subscript) and isinstance(s.value, ast.Attribute) and s.value.attr in PROJECT_NAME_TABLES \
+                        and ast.unparse(s.value.value) == "project":
+                    key, where = s.slice, "project table subscript"
+                if isinstance(s, ast.Compare) and len(s.ops) == 1 and isinstance(s.ops[0], (ast.In, ast.NotIn)) and \
+                        isinstance(s.comparators[0], ast.Attribute) and s.comparators[0].attr in PROJECT_NAME_TABLES \
+                        and ast.unparse(s.comparators[0].value) == "project":
+                    key, where = s.left, "project table in"
                 # dict displays merged into tables: {x.name: x for ...}
                 if key is None:
                     continue
